@@ -1378,3 +1378,81 @@ m('seed2-c11-mean-clamped-weight', ['C11', 'C07'], 'break', TU, '_tree_inverse_w
 m('seed2-c13-unsorted-ids', ['C13', 'C08'], 'break', IMFD, 'InMemoryFederatedData.__init__',
   "sorted(self._client_to_data_mapping.keys())", "list(self._client_to_data_mapping.keys())", mode='expr',
   expect={'C13': 'R-STREAM.sorted', 'C08': 'R-ORDER.sorted'})
+
+# ---- fifth batch: rules added for round 3 ----
+DL_ = 'fedjax/datasets/downloads.py'
+m('seed3-c01-adam-eps-swapped', 'C01', 'break', OPT, 'adam',
+  "optax.adam(learning_rate=learning_rate, b1=b1, b2=b2, eps=eps, eps_root=eps_root)", "optax.adam(learning_rate, b1, b2, eps_root, eps)",
+  mode='expr', expect='R-FORWARD.swapped')
+m('seed3-c01-adam-positional-twin', 'C01', 'neutral', OPT, 'adam',
+  "optax.adam(learning_rate=learning_rate, b1=b1, b2=b2, eps=eps, eps_root=eps_root)", "optax.adam(learning_rate, b1, b2, eps, eps_root)",
+  mode='expr')
+m('seed3-c02-sort-conditional', 'C02', 'break', FEC, '_blockify',
+  "clients.sort(key=lambda x: len(x[1]), reverse=True)", "if len(clients) > block_size:\n  clients.sort(key=lambda x: len(x[1]), reverse=True)",
+  expect='R-MASK.blockify-max')
+m('seed3-c02-set-none-returns', 'C02', 'break', FEC, 'set_for_each_client_backend',
+  "if backend is None or isinstance(backend, ForEachClientBackend):\n  _BACKEND_CHOICE.backend = backend",
+  "if backend is None:\n  return\nif isinstance(backend, ForEachClientBackend):\n  _BACKEND_CHOICE.backend = backend", expect='R-SCOPE.set',
+  anywhere=True) if False else None
+m('seed3-c02-copy-by-add', 'C02', 'break', FEC, JIT + '.jit_client_init',
+  "jax.tree_util.tree_map(jnp.copy, state)", "jax.tree_util.tree_map(lambda x: x + 0, state)",
+  mode='expr', expect='R-COPY')
+m('seed3-c03-size-cached', 'C03', 'break', CD, 'ClientDataset.__len__', "return num_examples(self.raw_examples, validate=False)", "return self._size",
+  expect='R-SIB.size')
+m('seed3-c03-batch-size-clamped', 'C03', 'break', CD, 'PaddedBatchView.__init__',
+  "self._batch_size = hparams.batch_size", "self._batch_size = hparams.batch_size\nif 0 < self._data_size < self._batch_size:\n  self._batch_size = self._data_size",
+  expect='R-SIB.fields')
+m('seed3-c04-replace-discarded', 'C04', 'break', CD, 'ClientDataset.shuffle_repeat_batch',
+  "hparams = hparams.replace(**kwargs)", "hparams.replace(**kwargs)", expect='R-DISCARD')
+m('seed3-c05-sumstat-axis-none', 'C05', 'break', MET, 'SumStat.reduce', "return SumStat.new(jnp.sum(self.accum, axis=axis))",
+  "return SumStat.new(jnp.sum(self.accum, axis=axis))", expect='R-OVERRIDE') if False else None
+m('seed3-c06-count-clamped', ['C06', 'C12'], 'break', MIME, 'create_grads_for_each_client.client_final',
+  "client_output = (client_step_state['grads_sum'], client_step_state['num_sum'])",
+  "client_output = (client_step_state['grads_sum'], jnp.maximum(client_step_state['num_sum'], 1.))", expect={'C06': 'R-WMEAN.pair-final', 'C12': 'R-'})
+m('seed3-c07-int-weight-total', 'C07', 'break', TU, 'tree_mean', "sum_weight = 0.", "sum_weight = 0", expect='R-WMEAN.init')
+m('seed3-c07-validate-consumes', 'C07', 'break', AGG, 'mean_aggregator.apply',
+  "def extract_params_and_weight(client_params_and_weight):",
+  "def extract_params_and_weight(client_params_and_weight):", expect='R-ONEPASS') if False else None
+m('seed3-c08-validate-before-set', ['C08', 'C13'], 'break', FD, 'SubsetFederatedData.__init__',
+  "if not isinstance(client_ids, set):\n  client_ids = set(client_ids)",
+  "if validate and not isinstance(client_ids, set):\n  client_ids = set(client_ids)", expect='R-')
+m('seed3-c09-loader-raw-glob', 'C09', 'break', CKPT, 'load_latest_checkpoint',
+  "all_checkpoint_paths = _get_checkpoint_paths(base_path)", "all_checkpoint_paths = sorted(tf.io.gfile.glob(base_path + '*'))", expect='R-PAIR.listing')
+m('seed3-c09-early-return', 'C09', 'break', EXP, 'run_federated_experiment',
+  "client_sampler.set_round_num(start_round_num)", "client_sampler.set_round_num(start_round_num)\nif start_round_num > config.num_rounds:\n  return state",
+  expect='R-ORDER.final-eval')
+m('seed3-c09-conditional-temp', 'C09', 'break', SER, 'save_state', "tmp_path = path + '.tmp'",
+  "tmp_path = path + '.tmp' if tf.io.gfile.exists(path) else path", expect='R-ATOMIC')
+m('seed3-c10-hash-keyed', 'C10', 'break', COMP, 'rotated_uniform_stochastic_quantizer.apply', "rng, use_rng = jax.random.split(rng)",
+  "rng, use_rng = jax.random.split(rng)\nuse_rng = jax.random.fold_in(use_rng, hash(bytes(1)) % 7)", expect='R-NONDET')
+m('seed3-c11-num-leaves-toplevel', 'C11', 'break', COMP, 'num_leaves', "return len(jax.tree_util.tree_leaves(pytree))", "return len(pytree)",
+  expect='R-PAIR.leaves')
+m('seed3-c14-truncation-last-token', 'C14', 'break', MET, 'SequenceTruncationRate.evaluate_example',
+  "target_is_truncated = jnp.all(target != self.eos_target_value)", "target_is_truncated = target[-1] != self.eos_target_value",
+  expect='R-FOLD.truncated')
+m('seed3-c15-skip-empty-before-checks', 'C15', 'break', CD, 'buffered_shuffle_batch_client_datasets.gen_items',
+  "if preprocessor is None:\n  preprocessor = dataset.preprocessor\n  yield preprocessor\nelif dataset.preprocessor is not preprocessor:\n  raise ValueError(f'client_datasets should have the identical Preprocessor object, got {preprocessor} vs {dataset.preprocessor}')",
+  "pass", expect='R-ERR') if False else None
+m('seed3-c16-loader-device-put', ['C16', 'C09'], 'break', CKPT, 'load_latest_checkpoint',
+  "latest_state = serialization.load_state(latest_checkpoint_path)", "latest_state = list(serialization.load_state(latest_checkpoint_path))",
+  expect={'C16': 'R-PAIR.checkpoint-raw', 'C09': 'R-RESUME.state-raw'})
+m('seed3-c17-one-sided-validation', 'C17', 'break', AGN, 'agnostic_federated_averaging',
+  "abs(sum(init_domain_weights) - 1) > 1e-06", "sum(init_domain_weights) > 1 + 1e-06", mode='expr', expect='R-SIMPLEX.init')
+m('seed3-c18-transform-donates', 'C18', 'break', WH, 'structured_rotation',
+  "rademacher = jax.random.rademacher(rng, w.shape)", "rademacher = jax.jit(lambda k: jax.random.rademacher(k, w.shape), donate_argnums=0)(rng)",
+  expect='R-DONATE')
+m('seed3-c18-shape-index', 'C18', 'break', WH, 'walsh_hadamard_transform',
+  "hadamards = dict(((d, hadamard_matrix(d, x.dtype)) for d in set(shape)))", "hadamards = dict(((d, hadamard_matrix(d, x.dtype)) for d in (shape[0], shape[-1])))",
+  expect='R-EMPTY')
+m('seed3-c19-length-default', 'C19', 'break', DL_, 'maybe_download', "r.headers['content-length']", "r.headers.get('content-length', 0)", mode='expr',
+  expect='R-ATOMIC.length')
+m('seed3-c19-no-status-check', 'C19', 'break', DL_, 'maybe_download', "r.raise_for_status()", "pass", expect='R-ATOMIC.status')
+m('seed3-c19-status-explicit-twin', 'C19', 'neutral', DL_, 'maybe_download', "r.raise_for_status()",
+  "if r.status_code != 200:\n  raise IOError(f'HTTP {r.status_code}')")
+m('seed3-c19-reuse-nonempty-only', 'C19', 'break', DL_, 'maybe_lzma_decompress', "os.path.exists(decompressed_path)",
+  "os.path.exists(decompressed_path) and os.path.getsize(decompressed_path)", mode='expr', expect='R-ATOMIC.reuse')
+m('seed3-c20-num-tokens-masks-eos', 'C20', 'break', MSO, 'create_lstm_model',
+  "metrics.SequenceTokenCount(masked_target_values=(pad,))", "metrics.SequenceTokenCount(masked_target_values=(pad, eos))", mode='expr',
+  expect='R-SIB.metrics')
+m('seed3-c20-pixels-before-crop', 'C20', 'break', CIFAR, 'preprocess_image_tff',
+  "num_pixels = np.prod(image.shape[-3:], dtype=np.float32)", "num_pixels = np.float32(32 * 32 * 3)", expect='R-SIB.tf')
